@@ -164,24 +164,24 @@ TinyProfiles == {Prof(1, ModsQ01, 2, {0, 1, 2}, <<1>>), Prof(2, ModsQ1, 2, {1, 2
 
 QuickProfiles ==
     { Prof(1, ModsQ0, 3, {0, 1, 2}, <<1>>),
-      Prof(1, ModsQ1, 3, {0, 1, 2}, <<8>>),
-      Prof(1, ModsQ2, 2, {0, 1, 2}, <<40>>),
+      Prof(1, ModsQ1, 3, {0, 1, 2}, <<10>>),
+      Prof(1, ModsQ2, 2, {0, 1, 2}, <<60>>),
       Prof(2, ModsQ0, 3, {0, 1, 2}, <<3, 10>>),
-      Prof(2, ModsQ1, 3, {0, 1, 2}, <<60, 200>>),
-      Prof(2, ModsQ2Few, 2, {0, 1, 2}, <<60, 160>>),
+      Prof(2, ModsQ1, 3, {0, 1, 2}, <<60, 260>>),
+      Prof(2, ModsQ2Few, 2, {0, 1, 2}, <<60, 220>>),
       Prof(3, ModsQ01, 3, {0, 1, 2}, <<150, 400, 400>>),
-      Prof(3, ModsQ2Few, 2, {1, 2}, <<80, 100, 100>>) }
+      Prof(3, ModsQ2Few, 2, {1, 2}, <<80, 100, 130>>) }
 
 ThoroughProfiles ==
     { Prof(1, ModsQ01, 3, {0, 1, 2}, <<1>>),
-      Prof(1, ModsQ2, 2, {0, 1, 2}, <<1>>),
-      Prof(2, ModsQ0, 3, {0, 1, 2}, <<1, 1>>),
-      Prof(2, ModsQ1, 3, {0, 1, 2}, <<8, 30>>),
-      Prof(2, ModsQ1, 2, {1, 2}, <<1, 2>>),
-      Prof(2, ModsQ2, 2, {0, 1, 2}, <<20, 40>>),
-      Prof(3, ModsQ01, 3, {0, 1, 2}, <<40, 100, 100>>),
+      Prof(1, ModsQ2, 2, {0, 1, 2}, <<2>>),
+      Prof(2, ModsQ0, 3, {0, 1, 2}, <<1, 2>>),
+      Prof(2, ModsQ1, 3, {0, 1, 2}, <<12, 60>>),
+      Prof(2, ModsQ1, 2, {1, 2}, <<1, 4>>),
+      Prof(2, ModsQ2, 2, {0, 1, 2}, <<30, 60>>),
+      Prof(3, ModsQ01, 3, {0, 1, 2}, <<60, 150, 150>>),
       Prof(3, ModsQ1, 2, {1, 2}, <<4, 8, 8>>),
-      Prof(3, ModsQ2, 2, {1, 2}, <<30, 50, 50>>) }
+      Prof(3, ModsQ2, 2, {1, 2}, <<60, 80, 80>>) }
 
 CanaryProfiles == {Prof(2, {<<1>>}, 2, {1, 2}, <<20, 20>>)}
 
